@@ -26,11 +26,11 @@ RRange == TReg("Rrange")   RDec == TReg("Rdec")  RBytes == TReg("Rbytes")  RBArr
 \* what a config file can hold for a registered type: every branch of its serializer / deserializer
 RegTexts(name) == CASE name = "Rpath" -> {<<"/","x">>, <<"a","/","b">>, <<"N","o","n","e">>}
                     [] name = "Rpathlike" -> {<<"/","x">>, <<"a"," ","b">>}
-                    [] name = "Rtd"   -> {<<"0",":","0","0",":","0","1">>, <<"1",":","0","2",":","0","3">>, <<"1"," ","d","a","y",","," ","2",":","0","3",":","0","4">>, <<"-","1"," ","d","a","y",","," ","2","3",":","5","9",":","5","9">>, <<"2"," ","d","a","y","s",","," ","0",":","0","0",":","0","0">>, <<"0",":","0","0",":","0","1",".","5","0","0","0","0","0">>}
+                    [] name = "Rtd"   -> {<<"0",":","0","0",":","0","1">>, <<"1",":","0","2",":","0","3">>, <<"1"," ","d","a","y",","," ","2",":","0","3",":","0","4">>, <<"-","1"," ","d","a","y",","," ","2","3",":","5","9",":","5","9">>, <<"2"," ","d","a","y","s",","," ","0",":","0","0",":","0","0">>, <<"0",":","0","0",":","0","1",".","5","0","0","0","0","0">>, <<"2","6",":","0","3",":","0","4">>, <<"4","7",":","5","9",":","5","9">>}
                     [] name = "Ruuid" -> {<<"1","2","3","4","5","6","7","8","-","1","2","3","4","-","5","6","7","8","-","1","2","3","4","-","5","6","7","8","1","2","3","4","5","6","7","8">>}
                     [] name = "Rrange" -> {<<"r","a","n","g","e","(","5",")">>, <<"r","a","n","g","e","(","2",","," ","5",")">>, <<"r","a","n","g","e","(","0",","," ","1","0",","," ","2",")">>, <<"r","a","n","g","e","(","1",","," ","1","0",","," ","3",")">>, <<"r","a","n","g","e","(","1","0",","," ","0",","," ","-","2",")">>, <<"r","a","n","g","e","(","0",")">>, <<"r","a","n","g","e","(","5",","," ","1",")">>, <<"r","a","n","g","e","(","0",","," ","5",","," ","1",")">>, <<"r","a","n","g","e","(","-","3",",","3",")">>}
                     [] name = "Rdec"  -> {<<"0",".","5">>, <<"3">>, <<"-","2",".","2","5">>, <<"0",".","1">>}
-                    [] name \in {"Rbytes", "Rbytearray"} -> {<<"a","G","k","=">>, << >>, <<"A","A","E","C">>}
+                    [] name \in {"Rbytes", "Rbytearray"} -> {<<"a","G","k","=">>, << >>, <<"/","+","8","=">>}
                     [] OTHER          -> {<<"(","1","+","2","j",")">>, <<"3","j">>}
 LitT   == TLiteral(<<Str(<<"a">>), Str(<<"1","e","3">>), IntV(<<"1">>), NullV>>)
 DC1    == TDC(<< <<<<"a">>, TInt, IntV(<<"1">>)>>, <<<<"s">>, TStr, Str(<<"x">>)>> , <<<<"o">>, TOpt(TStr), NullV>> >>)
@@ -114,7 +114,13 @@ ShapeA == [top |-> << E(<<<<"s">>>>, TStr, Str(<<"x">>)), E(<<<<"n">>>>, TOpt(TI
 SubsB  == << <<<<"a">>, << E(<<<<"x">>>>, TInt, IntV(<<"1">>)), E(<<<<"s">>>>, TStr, Str(<<"q">>)) >> >>, <<<<"b">>, << >> >>, <<<<"c">>, << E(<<<<"y">>>>, TOpt(TStr), NullV) >> >> >>
 ShapeB == [top |-> << E(<<<<"t","o","p">>>>, TInt, IntV(<<"0">>)) >>, subs |-> SubsB, required |-> TRUE]
 ShapeC == [top |-> << E(<<<<"t","o","p">>>>, TInt, IntV(<<"0">>)) >>, subs |-> SubsB, required |-> FALSE]
-Shapes == <<ShapeA, ShapeB, ShapeC>>
+\* registered types as plain arguments whose DEFAULTS are python objects (they are dumped without ever having been parsed)
+RgV(s) == RegV("Rrange", s)   TdV(s) == RegV("Rtd", s)
+ShapeD == [top |-> << E(<<<<"r">>>>, RRange, RgV(<<"r","a","n","g","e","(","0",","," ","1","0",","," ","2",")">>)), E(<<<<"t">>>>, RTd, TdV(<<"-","1"," ","d","a","y",","," ","2","3",":","5","9",":","5","9">>)), E(<<<<"g">>, <<"d">>>>, TOpt(RDec), NullV),
+                      E(<<<<"b">>>>, RBytes, RegV("Rbytes", <<"a","G","k","=">>)), E(<<<<"w">>>>, TOpt(RTd), TdV(<<"1"," ","d","a","y",","," ","0",":","0","0",":","0","0">>)) >>,
+           subs |-> << >>, required |-> FALSE]
+Shapes == <<ShapeA, ShapeB, ShapeC, ShapeD>>
+
 TS(s) == {Tag(s[i]) : i \in 1..Len(s)}
 CfgsA == {Tag(CfgV(<<s[2], n[2], ga[2], gb[2], d[2], l[2], u[2]>>, 0, << >>)) :
             u \in TS(<<Flt(<<"1",".","0">>), IntV(<<"1">>)>> \o (IF Depth2 THEN <<IntV(<<"2">>)>> ELSE << >>)),
@@ -122,12 +128,15 @@ CfgsA == {Tag(CfgV(<<s[2], n[2], ga[2], gb[2], d[2], l[2], u[2]>>, 0, << >>)) :
             ga \in TS(<<IntV(<<"1">>)>> \o (IF Depth2 THEN <<IntV(<<"2">>)>> ELSE << >>)), gb \in TS(<<NullV, Str(<<"u">>)>>),
             d \in TS(<<DictAB(<<"1">>, <<"2">>), DictAB(<<"1">>, <<"3">>), DictV(<< <<Str(<<"c">>), IntV(<<"5">>)>> >>), DictV(<< >>)>>),
             l \in TS(<<ListV(<<IntV(<<"1">>), IntV(<<"2">>)>>)>> \o (IF Depth2 THEN <<ListV(<<IntV(<<"3">>)>>)>> ELSE << >>))}
+CfgsD == {Tag(CfgV(<<r[2], t[2], d[2], RegV("Rbytes", <<"a","G","k","=">>), w[2]>>, 0, << >>)) :
+            r \in TS(<<RgV(<<"r","a","n","g","e","(","0",","," ","1","0",","," ","2",")">>), RgV(<<"r","a","n","g","e","(","2",","," ","5",")">>)>>), t \in TS(<<TdV(<<"-","1"," ","d","a","y",","," ","2","3",":","5","9",":","5","9">>), TdV(<<"0",":","0","0",":","0","1">>), TdV(<<"1"," ","d","a","y",","," ","2",":","0","3",":","0","4">>)>>),
+            d \in TS(<<NullV, RegV("Rdec", <<"0",".","5">>)>>), w \in TS(<<TdV(<<"1"," ","d","a","y",","," ","0",":","0","0",":","0","0">>), NullV>>)}
 CfgsBC(withNone) ==
        {Tag(CfgV(<<top[2]>>, 1, <<x[2], s[2]>>)) : top \in TS(<<IntV(<<"0">>), IntV(<<"2">>)>>), x \in TS(<<IntV(<<"1">>), IntV(<<"3">>)>>), s \in TS(<<Str(<<"q">>), Str(<<"1","e","3">>)>>)}
   \cup {Tag(CfgV(<<top[2]>>, 2, << >>)) : top \in TS(<<IntV(<<"0">>), IntV(<<"2">>)>>)}
   \cup {Tag(CfgV(<<top[2]>>, 3, <<y[2]>>)) : top \in TS(<<IntV(<<"0">>), IntV(<<"2">>)>>), y \in TS(<<NullV, Str(<<"u">>), Str(<<"1","e","3">>)>>)}
   \cup (IF withNone THEN {Tag(CfgV(<<top[2]>>, 0, << >>)) : top \in TS(<<IntV(<<"0">>), IntV(<<"2">>)>>)} ELSE {})
-ShapedCfgs == {<<1, c[1], c[2]>> : c \in CfgsA} \cup {<<2, c[1], c[2]>> : c \in CfgsBC(FALSE)} \cup {<<3, c[1], c[2]>> : c \in CfgsBC(TRUE)}
+ShapedCfgs == {<<1, c[1], c[2]>> : c \in CfgsA} \cup {<<2, c[1], c[2]>> : c \in CfgsBC(FALSE)} \cup {<<3, c[1], c[2]>> : c \in CfgsBC(TRUE)} \cup {<<4, c[1], c[2]>> : c \in CfgsD}
 CfgCases == {Tag([kind |-> "cfg", sh |-> sc[1], cfg |-> sc[3], fmt |-> fmt, sn |-> sn, sd |-> sd]) :
                fmt \in Formats, sn \in BOOLEAN, sd \in BOOLEAN, sc \in ShapedCfgs}
 
